@@ -61,10 +61,16 @@ func (s *socket) RecvMsg() (*protocol.Message, error) {
 	// socket.  Later we can look at moving this to priority queues
 	// based on socket pipes.
 	timeQ := nilQ
+	var expireQ <-chan time.Time
 	for {
 		s.Lock()
 		if s.recvExpire > 0 {
-			timeQ = time.After(s.recvExpire)
+			if expireQ == nil {
+				// the deadline belongs to the call: armed once, not
+				// again each time the queue is replaced
+				expireQ = time.After(s.recvExpire)
+			}
+			timeQ = expireQ
 		}
 		closeQ := s.closeQ
 		sizeQ := s.sizeQ
